@@ -711,7 +711,11 @@ func vC04CaseProofTree(out *vC04Out, r *rand.Rand) {
 		rep := env.query(route, qname, do, false, nil, "")
 		postAlias := env.peek(vC04Key(alias, false))
 		postDenied := env.peek(vC04Key(denied, false))
-		out.emit(map[string]any{"k": "dbg-proof-tree", "inconclusive": true, "desc": map[string]any{
+		var dump []string
+		for id, e := range env.c.store.denialProofs.byID {
+			dump = append(dump, fmt.Sprintf("%v/%v exp-t0=%d seq=%d", id.kind, id.owner, k.virt(e.expires)-rep.t0, e.sequence))
+		}
+		out.emit(map[string]any{"k": "dbg-proof-tree", "inconclusive": true, "desc": map[string]any{"index_after": dump,
 			"q": qname, "route": route, "do": do, "P_in": P - rep.t0, "stubbed": rep.stubbed, "reply": fmt.Sprint(rep.msg), "bound": rep.bound, "bound_minus_t0": rep.boundV - rep.t0,
 			"preAlias": vC04Ent(k, preAlias), "preDenied": vC04Ent(k, preDenied), "postAlias": vC04Ent(k, postAlias), "postDenied": vC04Ent(k, postDenied), "t0": rep.t0}})
 	}
